@@ -185,7 +185,8 @@ func (c *Ctx) serverModel() *serverModel {
 	defers := map[*ssa.Function]*ssa.Defer{}
 	for _, ci := range an.Calls(m.connFn) {
 		if d, ok := ci.(*ssa.Defer); ok {
-			if t := an.StaticCallee(d.Common()); t != nil && t.Parent() == m.connFn {
+			// a deferred function literal of the goroutine, or a deferred named function / method of the module
+			if t := an.StaticCallee(d.Common()); t != nil && an.InModule(t) && len(t.Blocks) > 0 && (t.Parent() == m.connFn || t.Parent() == nil) {
 				cands = append(cands, t)
 				defers[t] = d
 			}
